@@ -162,6 +162,31 @@ def _run_history(idx, ver, ops):
         tr.poll_all()
         if Rd != W:
             info["problems"].append("not all data delivered: written %r read %r" % (W, Rd))
+    # close: one side writes k bytes (a KeyUpdate / heartbeat in between on odd histories) and closes; the other had
+    # asked for more than k and must be handed exactly those k bytes when the close_notify arrives
+    if not info["problems"] and not p.c.closed and not p.s.closed:
+        ep = "c" if idx % 2 == 0 else "s"
+        peer = "s" if ep == "c" else "c"
+        d = "c2s" if ep == "c" else "s2c"
+        k = 1 + (idx * 31) % 200
+        tr.emit("W", d=d, n=k)
+        o = p.write(ep, c01.stream(d, W[d], k))
+        if o.ok:
+            W[d] += k
+            tr.emit("WE", d=d)
+            if idx % 3 == 1 and ver == "13":
+                p.op(ep, conns[ep].send_keyupdate_request(KeyUpdateMessageType.update_not_requested))
+            p.close(ep)
+            o = p.op(peer, _read_gen(conns[peer], None, k + 50), max_steps=20000)
+            if o.exc is not None or o.value is None:
+                info["problems"].append("read at close raised %s" % o.describe())
+            else:
+                got = bytes(o.value)
+                tr.emit("RD", d=d, max=-1, min=k + 50, len=len(got), match=got == c01.stream(d, Rd[d], len(got)),
+                        closed=bool(conns[peer].closed))
+                Rd[d] += len(got)
+            tr.poll_all()
+    if not info["problems"]:
         tr.emit("END")
     info["bytes"] = dict(W)
     info["hb_resp_seen"] = {k_: len(v_) for k_, v_ in hb_seen.items()}
